@@ -10,9 +10,11 @@ import (
 
 // Proc is a live (non-zombie) process carrying the scenario tag in its environment.
 type Proc struct {
-	Pid  int    `json:"pid"`
-	Pgid int    `json:"pgid"`
-	Comm string `json:"comm"`
+	Pid   int    `json:"pid"`
+	Pgid  int    `json:"pgid"`
+	Comm  string `json:"comm"`
+	State string `json:"state"`
+	Ppid  int    `json:"ppid"`
 }
 
 // taggedProcs scans /proc for processes whose environment contains tag (VERIF_TAG=<...>).
@@ -60,7 +62,8 @@ func taggedProcs(tag string, skip map[int]bool) []Proc {
 			continue
 		}
 		pgid, _ := strconv.Atoi(f[2])
-		res = append(res, Proc{Pid: pid, Pgid: pgid, Comm: s[lp+1 : rp]})
+		ppid, _ := strconv.Atoi(f[1])
+		res = append(res, Proc{Pid: pid, Pgid: pgid, Comm: s[lp+1 : rp], State: f[0], Ppid: ppid})
 	}
 	return res
 }
